@@ -73,3 +73,6 @@ func (c *Channel) VerifSnapshot() (ret VerifSnapshot) {
 	}
 	return ret
 }
+
+// VerifOnRekey runs the rekey timer's callback now, as if RekeyAfterTime had elapsed.
+func (c *Channel) VerifOnRekey() { c.onRekey() }
